@@ -56,6 +56,23 @@ type RouteCase struct {
 	// did not compile, a state file entry without a spec).  It cannot
 	// run, so it receives nothing - and must not get in anybody's way.
 	Ghost bool `json:"ghost,omitempty"`
+	// Slow: the crew (step limit 10 then) also holds a machine that needs
+	// 35 steps through action nodes after every message before it listens
+	// again: its walks end at the step limit, with the next message still
+	// unconsumed.  That is that machine's business only.
+	Slow bool `json:"slow,omitempty"`
+}
+
+func slowSpec() *core.Spec {
+	return &core.Spec{Name: "slow", Nodes: map[string]*core.Node{
+		"start": {Branches: &core.Branches{Type: "message", Branches: []*core.Branch{{Pattern: "?m", Target: "spin"}}}},
+		"spin": {ActionSource: &core.ActionSource{Interpreter: "ecmascript", Source: `var n = (typeof _.bindings.n === 'number' ? _.bindings.n : 0) + 1; return {n: n};`},
+			Branches: &core.Branches{Type: "bindings", Branches: []*core.Branch{
+				{Pattern: map[string]interface{}{"n": 35.0}, Target: "rest"},
+				{Target: "spin"}}}},
+		"rest": {ActionSource: &core.ActionSource{Interpreter: "ecmascript", Source: `return {};`},
+			Branches: &core.Branches{Type: "bindings", Branches: []*core.Branch{{Target: "start"}}}},
+	}}
 }
 
 var spawnPool = []string{"s1", "s2"}
@@ -206,6 +223,7 @@ func genRoute(t *rapid.T) RouteCase {
 	_, repeatKnown := ev.IsKnown("C14", "C14/sio-repeated-list-member")
 	counter := 0
 	c.Ghost = rapid.IntRange(0, 3).Draw(t, "ghost") == 0
+	c.Slow = rapid.IntRange(0, 3).Draw(t, "slow") == 0
 	c.Spawn = rapid.IntRange(0, 2).Draw(t, "spawn") == 0
 	spawning = c.Spawn
 	defer func() { spawning = false }()
@@ -287,10 +305,26 @@ func depthOf(msg interface{}) float64 {
 func checkRoute(c RouteCase) (v ev.Verdict) {
 	ctx, cancel := context.WithCancel(context.Background())
 	defer cancel()
-	cr, _, err := crewh.NewCrew(ctx, 100, 64)
+	limit := 100
+	if c.Slow {
+		limit = 10
+	}
+	cr, _, err := crewh.NewCrew(ctx, limit, 64)
 	if err != nil {
 		v.Failf("NewCrew: %v", err)
 		return
+	}
+	if c.Slow {
+		src, err := crewh.InlineSource(slowSpec())
+		if err != nil {
+			v.Failf("%v", err)
+			return
+		}
+		if err := cr.SetMachine(ctx, "zz-slow", src, nil); err != nil {
+			v.Failf("SetMachine: %v", err)
+			return
+		}
+		v.Class("machine-at-the-step-limit")
 	}
 	for _, mid := range c.Mids {
 		src, err := crewh.InlineSource(recorderSpec())
